@@ -40,13 +40,13 @@ var fillerForms = []string{
 	"\n\n(do 1\n    2)",
 }
 
-var faults = []string{"undefined-symbol-x", "(throw \"planted\")", "(nth [1 2] 7)", "(assert false)", "(throw {:a 1})", "(undefined-fn 1 2)", "(+ 1 \"s\")",
+var faults = []string{"(throw not-found-marker)", "(assert false not-found-marker)", "undefined-symbol-x", "(throw \"planted\")", "(nth [1 2] 7)", "(assert false)", "(throw {:a 1})", "(undefined-fn 1 2)", "(+ 1 \"s\")",
 	// the failing call is a list rebuilt by macro expansion: it has no cursor of its own (known finding D16b)
 	"(-> [1 2] (nth 7))"}
 
 // wrap puts the fault (on its own line where the layout allows) inside a nesting construct
 func wrapFault(r *rng, fault string) string {
-	switch r.intn(14) {
+	switch r.intn(16) {
 	case 0:
 		return fault
 	case 1:
@@ -73,6 +73,9 @@ func wrapFault(r *rng, fault string) string {
 		return "((fn [z]\n  " + fault + ") 1)"
 	case 12:
 		return "(try\n  " + fault + "\n  (finally 1))"
+	case 13, 14:
+		// the fault sits in a HANDLER whose body failed on purpose (an error inside an error handler)
+		return "(try\n  (throw \"caught on purpose\")\n  (catch e\n    1\n    " + fault + "))"
 	default:
 		return "(list\n  ; comment before the fault\n\n  " + fault + ")"
 	}
@@ -94,6 +97,10 @@ func (e *posEngine) generate(r *rng, n int, tier string, emit func(string)) {
 			tb.write(r.pick([]string{";; $MODULE other.lisp\n", ";; $MODULE scratch/old-dump.lisp\n", ";; $MODULE m2\n\n"}))
 		}
 		tb.write("(do\n")
+		if strings.Contains(fault, "not-found-marker") {
+			// the thrown VALUE is a quoted literal read on other lines: the error is at the throw, not at the literal
+			tb.write("(def not-found-marker\n  (quote (error\n    not found)))\n")
+		}
 		if r.chance(1, 3) {
 			// the identifiers of the fault also occur EARLIER in the text, on other lines, in innocent places
 			tb.write("(def ok8 (quote (undefined-symbol-x undefined-fn\n  nth throw assert)))\n(def ok9 (fn [undefined-symbol-x]\n  undefined-symbol-x))\n")
